@@ -7,16 +7,20 @@ from rules.storefacts import field_of
 import callgraph
 
 LEVEL_TEXT = (
-    "Static clause check: R1 every opcode of the Command enum below OpCodeMax decodes to a request or to an error that "
-    "closes the connection — never to 'no frame' (extracted decoder table over 0..255); R2 in BinaryHandler::handle_request "
-    "every loud request variant returns Some(response) on all paths, every quiet variant returns its loud sibling's "
-    "response passed through into_quiet_mutation / into_quiet_get, and the two filters are evaluated over "
-    "{Error(NotFound), Error(other), non-error}: quiet mutations answer only on error, quiet gets only when it is not a "
-    "miss; R3 Client::handle_request dispatches each request exactly once (QuitQuietly: zero times), writes the response "
-    "exactly once when there is one and never otherwise, and nothing reachable from the connection task spawns or joins "
-    "concurrent work (one request is finished before the next is read); R4 quit rules: QuitQuietly -> shutdown, stop, "
-    "nothing executed or written; a Quit response -> written, then shutdown, stop; 'stop' ends the read loop. "
-    "Not decided: TCP delivering the responses in order."
+    'Static clause check: R1 every opcode of the Command enum below OpCodeMax decodes to a request or to an error '
+    "that closes the connection — never to 'no frame' (decoder table over 0..255 on the public decode); R2 a semantic "
+    'reply table: BinaryHandler::handle_request is evaluated for every request variant with each command method (the '
+    'handler methods that call the storage) answering each of {Error(NotFound), Error(KeyExists), Error(0x81), '
+    "success}: a loud request is always answered with the command's own response, a quiet mutation exactly on error, "
+    'a quiet get always except on a miss, QuitQuietly never; the quiet request runs the same command with the same '
+    'arguments as its loud sibling — however dispatch and filtering are organised into functions; R3/R4 are evaluated '
+    'on the public Client::handle with its private steps inlined, one round of the loop per path: a decoded request '
+    'is dispatched exactly once (QuitQuietly: zero times), its response is written exactly once when there is one and '
+    'never otherwise, nothing reachable from the connection task spawns or joins concurrent work; QuitQuietly -> '
+    'shutdown and the task ends, nothing executed or written; a Quit response -> written, then shutdown, the task '
+    'ends; any other response keeps the loop going; a failed write ends the task; R5 MemcacheBinaryConnection::write '
+    'returns success only after the whole encoded response was written to the socket. Not decided: TCP delivering the '
+    'responses in order.'
 )
 ASSUMPTIONS = [
     "the loud/quiet pairing is the one of the repository's own enums (X / XQuiet(ly))",
